@@ -282,7 +282,7 @@ func init() {
 		ID:    "C12",
 		Level: "exploration",
 		Rule: "all boolean skeletons with up to 3 (quick) / 4 (thorough) distinct atoms, plus seeded random skeletons with up to 5 / 6 atoms: every and/or chain, every placement of parentheses (incl. redundant ones) and of `not (...)`, nesting depth 2; each is rendered (canonical spelling and 3 re-spellings with random keyword case, " +
-			"whitespace at WS positions only, redundant parentheses), parsed, and its full truth table over all 2^N assignments (atoms are bool symbols and, in a second pass, typed comparisons) is compared with the table computed from the structure with and > or. " +
+			"whitespace at WS positions only, redundant parentheses), parsed, and its full truth table over all 2^N assignments (atoms are bool symbols; in a second pass typed comparisons; in a third pass a rotation of 13 operation kinds: in / between / not in / not between / contains / null test / isEmpty / count and anyOf / allOf over sets whose elements lie partly inside and partly outside the list or range) is compared with the table computed from the structure with and > or. " +
 			"Then typed query templates (every operator incl. not in / not between / not contains / not icontains, set functions, lists) are re-spelled and their results over random rows must not change. non-trivial = distinct skeletons mixing and/or or containing not/parentheses",
 		Assumptions: []string{"bare `not` next to and/or (without parentheses) is not generated: the statement fixes only not (P)"},
 		Exhaustive:  func(core.Tier) bool { return true },
@@ -291,6 +291,13 @@ func init() {
 			return (n+c12Chunk-1)/c12Chunk + c12RandomCases(tier) + 24
 		},
 		Run: runC12,
+		Promises: func(core.Tier) map[string][]string {
+			var kinds []string
+			for _, k := range c12Kinds {
+				kinds = append(kinds, k.name)
+			}
+			return map[string][]string{"atom_kind": kinds, "shape": {"and-then-or"}}
+		},
 	})
 }
 
@@ -302,6 +309,13 @@ func runC12(c *core.Ctx, idx int) {
 	for i := 0; i < 7; i++ {
 		tbl.Types[c12Sym("p", i)] = ast.NodeTypeBool
 		tbl.Types[c12Sym("n", i)] = ast.NodeTypeInt64
+	}
+	for i := 0; i < 7; i++ {
+		tbl.Types[c12Sym("ts", i)] = ast.NodeTypeString
+		tbl.Sets[c12Sym("ts", i)] = true
+		tbl.Types[c12Sym("ns", i)] = ast.NodeTypeInt64
+		tbl.Sets[c12Sym("ns", i)] = true
+		tbl.Types[c12Sym("st", i)] = ast.NodeTypeString
 	}
 	tbl.Types["s"] = ast.NodeTypeString
 	tbl.Types["f"] = ast.NodeTypeFloat64
@@ -328,9 +342,17 @@ func runC12(c *core.Ctx, idx int) {
 	atomCmp := func(i int) ql.Stream {
 		return ql.Cmp(ql.Stream{ql.T(c12Sym("n", i))}, "=", ql.Stream{ql.T("1")})
 	}
-	for _, sk := range batch {
+	variant := 0
+	atomMixed := func(i int) ql.Stream { return c12Kinds[(i+variant)%len(c12Kinds)].text(i) }
+	for ski, sk := range batch {
 		n := countAtoms(sk)
-		for pass, atom := range []func(int) ql.Stream{atomBool, atomCmp} {
+		variant = idx + ski
+		for pass, atom := range []func(int) ql.Stream{atomBool, atomCmp, atomMixed} {
+			if pass == 2 {
+				for i := 0; i < n; i++ {
+					c.Cover("atom_kind", c12Kinds[(i+variant)%len(c12Kinds)].name)
+				}
+			}
 			st := sk.stream(atom)
 			texts := []string{st.Canon(), st.Tight(), st.Respell(r), st.Respell(r)}
 			if n >= 4 && idx < nChunks {
@@ -350,7 +372,9 @@ func runC12(c *core.Ctx, idx int) {
 					row := memsym.NewRow(tbl)
 					for i := 0; i < n; i++ {
 						asg[i] = m&(1<<i) != 0
-						if pass == 0 {
+						if pass == 2 {
+							c12Kinds[(i+variant)%len(c12Kinds)].set(row, i, asg[i])
+						} else if pass == 0 {
 							row.Vals[c12Sym("p", i)] = asg[i]
 						} else if asg[i] {
 							row.Vals[c12Sym("n", i)] = int64(1)
@@ -388,6 +412,92 @@ func runC12(c *core.Ctx, idx int) {
 			c.Sample(map[string]any{"skeleton": sk.stream(atomBool).Canon(), "respelled": sk.stream(atomCmp).Respell(r), "assignments": 1 << n})
 		}
 	}
+}
+
+// atoms of the third pass: every operation family, with quantified set operands whose elements are partly inside and
+// partly outside the list / range, so that a negation applied at the wrong level changes the value
+type c12Kind struct {
+	name string
+	text func(i int) ql.Stream
+	set  func(row *memsym.Row, i int, v bool)
+}
+
+func c12Strs(xs ...string) []any {
+	var out []any
+	for _, x := range xs {
+		out = append(out, x)
+	}
+	return out
+}
+
+func c12SetKind(name, fn, prefix, op, rhs string, whenTrue, whenFalse []any) c12Kind {
+	return c12Kind{name: name,
+		text: func(i int) ql.Stream {
+			lhs := ql.Func(fn, ql.Stream{ql.T(c12Sym(prefix, i))})
+			if op == "" {
+				return lhs
+			}
+			return c12Op(lhs, op, rhs)
+		},
+		set: func(row *memsym.Row, i int, v bool) {
+			if v {
+				row.SetVals[c12Sym(prefix, i)] = whenTrue
+			} else {
+				row.SetVals[c12Sym(prefix, i)] = whenFalse
+			}
+		}}
+}
+
+func c12ScalarKind(name, prefix, op, rhs string, whenTrue, whenFalse any) c12Kind {
+	return c12Kind{name: name,
+		text: func(i int) ql.Stream { return c12Op(ql.Stream{ql.T(c12Sym(prefix, i))}, op, rhs) },
+		set: func(row *memsym.Row, i int, v bool) {
+			val := whenFalse
+			if v {
+				val = whenTrue
+			}
+			if val == nil {
+				delete(row.Vals, c12Sym(prefix, i))
+			} else {
+				row.Vals[c12Sym(prefix, i)] = val
+			}
+		}}
+}
+
+// c12Op renders lhs op rhs where rhs is a space-separated token list (word operators need required gaps).
+func c12Op(lhs ql.Stream, op, rhs string) ql.Stream {
+	var r ql.Stream
+	for k, tok := range strings.Split(rhs, " ") {
+		if k > 0 {
+			r = append(r, ql.G(ql.Req))
+		}
+		if tok == "and" {
+			r = append(r, ql.K(tok))
+		} else {
+			r = append(r, ql.T(tok))
+		}
+	}
+	switch op {
+	case "=", "!=", "<", ">", "<=", ">=":
+		return ql.Cmp(lhs, op, r)
+	}
+	return ql.WordOp(lhs, op, r)
+}
+
+var c12Kinds = []c12Kind{
+	c12ScalarKind("int in", "n", "in", "[1, 7]", int64(1), int64(0)),
+	c12ScalarKind("int between (upper bound exclusive)", "n", "between", "1 and 3", int64(1), int64(3)),
+	c12SetKind("anyOf in", "anyOf", "ts", "in", `["a"]`, c12Strs("a", "b"), c12Strs("b", "c")),
+	c12SetKind("allOf in", "allOf", "ts", "in", `["a", "b"]`, c12Strs("a", "b"), c12Strs("a", "c")),
+	c12SetKind("anyOf between", "anyOf", "ns", "between", "1 and 3", []any{int64(1), int64(5)}, []any{int64(3), int64(5)}),
+	c12SetKind("allOf not in", "allOf", "ts", "not in", `["x"]`, c12Strs("a", "b"), c12Strs("a", "x")),
+	c12SetKind("anyOf not in", "anyOf", "ts", "not in", `["a"]`, c12Strs("a", "b"), c12Strs("a")),
+	c12ScalarKind("contains", "st", "contains", `"x"`, "axb", "ab"),
+	c12SetKind("isEmpty", "isEmpty", "ts", "", "", []any{}, c12Strs("a")),
+	c12SetKind("count", "count", "ts", ">", "1", c12Strs("a", "b"), c12Strs("a")),
+	c12ScalarKind("int not between", "n", "not between", "1 and 3", int64(3), int64(1)),
+	c12ScalarKind("not null", "st", "!=", "null", "a", nil),
+	c12SetKind("allOf not between", "allOf", "ns", "not between", "1 and 3", []any{int64(0), int64(3)}, []any{int64(0), int64(2)}),
 }
 
 func countAtoms(s *skel) int {
